@@ -32,6 +32,9 @@ type planEntry struct {
 var plan []planEntry
 var planTotal int
 
+// curKind: generator of the case being run (evidence: which generator produced which finding key).
+var curKind = "replay"
+
 // ueTargets are the NAL units whose every bit position receives a forced
 // Exp-Golomb code.
 var ueTargets []seed
@@ -112,20 +115,30 @@ func init() {
 			"the SEI decoders get the external-parameter combinations (all of them for SEI inputs, a rotating subset otherwise); Type/Size/String/Payload/WriteSEIMessages on every returned message; Size/Encode/EncodeSW on every decoded configuration record). " +
 			"Seeds: NAL units of the repo's Annex B test streams (split by ref/annexb), hex literals of the codec packages' tests, hand-built SEI payloads of every implemented type (incl. zero clock timestamps), AVC SPS with VUI+HRD, FMO PPS, slices with list modification/weights/marking, ADTS/ASC, avcC/hvcC/av1C. " +
 			"Generators: trunc (every prefix of every seed), const (00/ff/80/01/55 strings of every length <= 64 behind every NAL header), sei-short (21 SEI types x payload length 0..40 x 4 fills, direct and framed), " +
-			"ue (an Exp-Golomb code written at every RBSP bit position 0..319 of parameter set/slice/SEI seeds, RBSP re-escaped: pass 1 values 2^21/2^22, pass 2 values 32,64,255,256,65535,65536 and for 1/8 of the positions 2^24, 2^31, 2^32-2, 2^32-1), " +
+			"ue (an Exp-Golomb code written at every RBSP bit position 0..319 of parameter set/slice/SEI seeds, RBSP re-escaped: pass 1 values 2^21/2^22, pass 2 values 32,64,255,256,65535,65536 and for 1/8 of the positions 2^24, 2^31, 2^32-2, 2^32-1 or one of the long-prefix values 2^64-1, 2^63, 2^32, 2^33-1: " +
+			"bits.EBSPReader.ReadExpGolomb accepts any number of leading zero bits, so codes with 32..64 of them carry every 64-bit value, 2^64-1 being 64 zeros, a one and 64 zeros), " +
 			"chain (mutated SPS/PPS parsed and then used as maps for the slices, SEI and protect ranges of the same stream), " +
 			"chain-ue (systematic: for every parameter-set context - the repo's Annex B files, parameter sets of the test literals, the hand-built sets, and sets drawn with fixed generator seeds from the independent serializers ref/h264 and ref/h265 with weighted prediction, every slice group map type, redundant_pic_cnt, field coding, long-term references, tiles, entropy sync, lists modification, slice header extension and sub-picture HRD forced on - " +
-			"an Exp-Golomb code is written at every data bit position of the SPS and of the PPS, replacing the code that starts there and rebuilding rbsp_trailing_bits: values 2^32-1, 2^31, 65536 and 255 at every position and a single-bit flip of every position, in the thorough tier also 2^32-2, 2^31-1, 2^32, 2^24, 65535, 256 and the four primary values inserted instead of replacing; " +
+			"an Exp-Golomb code is written at every data bit position of the SPS and of the PPS, replacing the code that starts there and rebuilding rbsp_trailing_bits: values 2^32-1, 2^31, 65536, 255 and the long-prefix values 2^64-1, 2^63, 2^32, 2^33-1 at every position and a single-bit flip of every position, in the thorough tier also 2^32-2, 2^31-1, 2^24, 65535, 256 and the first four values inserted instead of replacing; " +
+			"for the contexts of the reference serializers, whose layout is known, every syntax element of 2..64 bits is also set to all ones and incremented by one as a fixed-width number; one case holds all variants of one position (each is parsed and followed by the same dependent units); " +
 			"when the library accepts the hostile set, ordinary P/B/I slices of that context (with and without num_ref_idx_active_override; accepted by the library with the unmodified sets), its SEI units, a sample of the slices, ParsePPSNALUnit against a hostile SPS, the SPS methods and the DecConfRec constructors run with it; the tools get the Annex B stream with the hostile set in place), " +
-			"ctx-ue (systematic: the same forced codes - quick: the four primary values and the flip, as one group of dependent inputs - at each of the first 256 (thorough 768) RBSP bit positions of every slice of every context, parsed against the unmodified parameter sets of that context, so that the header branches a context switches on - long-term references, weight tables, entry points, header extension, slice groups - see extreme values), " +
-			"sei-ue (systematic: the same forced codes at every bit position of every SEI payload seed and of HEVC pic_timing payloads laid out for each of the 64 external-parameter sets = 16 combinations of the flags DecodePicTimingHevcSEI reads x 4 sets of lengths, handed to the decoders with every external-parameter set and framed for avc/hevc.ParseSEINalu with nil and every hand-built SPS value), flip (bit flips/boundary bytes/cuts/inserts), lenprefix (hostile 4-byte length fields, samples of 0..7 bytes), splice, stream (mutated Annex B streams). " +
-			"2 % of the cases also go through the mp4ff-nallister and mp4ff-pslister binaries. The library calls run in a probe subprocess of each worker whose monitor goroutine watches the call in flight " +
+			"ctx-ue (systematic: the same forced codes - quick: the eight primary values and the flip, as one group of dependent inputs - at each of the first 256 (thorough 768) RBSP bit positions of every slice of every context, parsed against the unmodified parameter sets of that context, so that the header branches a context switches on - long-term references, weight tables, entry points, header extension, slice groups - see extreme values; " +
+			"plus fixed-width forcing at every position: the k bits that start there set to ones for k = 2..8, 16, 32 and the k-bit number that starts there incremented by one for k = 2..8, so that u(v) fields whose width comes from a parameter set - short_term_ref_pic_set_idx, lt_idx_sps, slice_segment_address, entry point offsets ... - reach their largest codable value and the value one above the last valid one; " +
+			"six of the HEVC contexts have 3, 5, 6, 7, 9, 12 short-term reference picture sets and in every HEVC context the first slice of each class refers to the last set of the SPS), " +
+			"sei-ue (systematic: the same forced codes at every bit position of every SEI payload seed and of HEVC pic_timing payloads laid out for each of the 64 external-parameter sets = 16 combinations of the flags DecodePicTimingHevcSEI reads x 4 sets of lengths, handed to the decoders with every external-parameter set and framed for avc/hevc.ParseSEINalu with nil and every hand-built SPS value), " +
+			"ps-struct (parameter sets that are hostile by construction, written with a local bit layout of the HEVC SPS, PPS and slice segment header and of the AVC PPS: counts decoupled from what is present, byte-wrapping values, every extension forced on. Full products of the groups of fields that interact: " +
+			"num_short_term_ref_pic_sets 0..1000 x six ways of coding the sets (explicit, chains of inter-predicted sets with all / use_delta / no entries kept, alternating) x size of set 0; sps_scc_extension with bit depths 0..255 x sps_num_palette_predictor_initializers_minus1 0..2^64-1 x chroma format; POC width x long-term pictures; the 16 combinations of the SPS extension flags x sps_extension_4bits; picture size x coding block sizes; " +
+			"PPS tiles; pps_range_extension; pps_multilayer_extension (num_ref_loc_offsets, colour mapping table with every octant depth / partition number and bit depths up to 2^64-1); pps_3d_extension (depth layers x bit depth x every dlt coding); pps_scc_extension (initializer count x entry bit depths up to 2^64-1); AVC PPS slice groups (count x map type 0..7 x run length / rate / map size up to 2^64-1); " +
+			"and a random part that draws every field at once. Each set is parsed together with its benign partner, then sent through every entry point, then slices laid out for it run against it: short_term_ref_pic_set_idx = N-1, N, all ones; slice-local sets predicted from the last / first / a non-existing SPS set; num_long_term_sps/pics, num_entry_point_offsets and slice_segment_header_extension_length at their extremes), flip (bit flips/boundary bytes/cuts/inserts), lenprefix (hostile 4-byte length fields, samples of 0..7 bytes), splice, stream (mutated Annex B streams). " +
+			"2 % of the cases (chain-ue: one variant of every 10th position) also go through the mp4ff-nallister and mp4ff-pslister binaries. " +
+			"The library calls that build the plan in each worker (parsing the seeds' own parameter sets, selecting the slices a context accepts) run under a recover wrapper: a panic there is recorded with its input and reported by case 0 as a violation, the unit counts as rejected. The library calls run in a probe subprocess of each worker whose monitor goroutine watches the call in flight " +
 			"(bytes allocated since the call started, runtime/metrics /gc/heap/allocs:bytes, against 8 MiB + 1024*len; process CPU time against 2 s + 20 us*len, a CPU exceedance must be reproduced in a fresh probe; " +
 			"after a hang key is confirmed, calls found at 30 ms CPU inside the same function are aborted and counted as presumed repeats, not reported); the runner watchdog (6 s CPU per case, RLIMIT_AS 3 GiB) is the backstop. " +
 			"A case is non-trivial when at least one operation accepted the input (returned a value without error); distinct_nontrivial counts distinct such input hashes; evaluations counts library calls and tool runs.",
 		Assumptions: []string{
 			"external SEI parameters stay inside what a parsed SPS can produce (5-bit length fields 0..31)",
 			"allocation is measured as the cumulative heap allocation delta of the worker (GOMAXPROCS=2, nothing else running); small-object accounting lags by at most a few spans, far below the 8 MiB slack",
+			"the plan (which contexts and slices exist) depends on what the library accepts during setup; a hang or an allocation blow-up of the library on the well-formed setup inputs themselves would still end as a harness failure (only panics are recovered there)",
 		},
 		Setup: func(env *runner.Env) error {
 			s, err := loadSeeds(env)
@@ -154,6 +167,7 @@ func init() {
 
 func run(c *runner.Ctx, idx int) {
 	kind, sub := locate(idx)
+	curKind = kind
 	x := &runCtx{c: c, maps: defaultMaps}
 	x.gen = &genState{rand: c.Rand}
 	c.Seen("generator", kind)
@@ -208,9 +222,13 @@ func run(c *runner.Ctx, idx int) {
 		return
 	}
 	drive(c, j)
-	if useTools(c, idx) {
+	if useTools(c, kind, idx) {
 		if x.toolIn != nil {
-			runTools(c, x.toolIn, j.items[0].Desc+" (tools: Annex B stream of the parameter sets and slices)")
+			d := j.items[0].Desc
+			if x.toolDesc != "" {
+				d = x.toolDesc
+			}
+			runTools(c, x.toolIn, d+" (tools: Annex B stream of the parameter sets and slices)")
 		} else {
 			runTools(c, j.items[0].In, j.items[0].Desc)
 		}
@@ -219,8 +237,9 @@ func run(c *runner.Ctx, idx int) {
 
 // job is what one case sends to the probe.
 type job struct {
-	items []item
-	chain *chainDetail
+	items  []item
+	chain  *chainDetail
+	chains []*chainDetail // chain-ue: the variants of one position, each followed by the same items
 }
 
 type genState struct{ rand *runner.Rand }
